@@ -1,13 +1,13 @@
 #!/bin/sh
 # tools/seed_wt.sh <ID> : scratch worktree /tmp/seed2/<ID> at /repo HEAD with _seed/PROPERTY.json (round 2 of seeded changes)
-ID="$1"; W=/tmp/seed2/$ID
+ID="$1"; R=${SEED_ROOT:-/tmp/seed2}; W=$R/$ID
 git -C /repo worktree add -q --detach "$W" HEAD || exit 3
 mkdir -p "$W/_seed"
-python3 - "$ID" <<'P'
+python3 - "$ID" "$R" <<'P'
 import json,sys
 pid=sys.argv[1]
 for l in open('/verif/properties.jsonl'):
     d=json.loads(l)
-    if d['id']==pid: json.dump(d,open('/tmp/seed2/%s/_seed/PROPERTY.json'%pid,'w'),indent=1)
+    if d['id']==pid: json.dump(d,open('%s/%s/_seed/PROPERTY.json'%(sys.argv[2],pid),'w'),indent=1)
 P
 echo "$W ready"
